@@ -166,7 +166,3 @@ func devMain(args []string) {
 	}
 }
 
-func checkMain(args []string) {
-	fmt.Fprintln(os.Stderr, "not yet implemented")
-	os.Exit(2)
-}
